@@ -191,8 +191,114 @@ def _closest(ctx) -> None:
     ctx.count("recon_sites", len(sites))
 
 
+def _time_tabulate(ctx) -> None:
+    """TIME.tabulated: every arithmetic method of Time run by the checker's interpreter on Time stubs (rules/wallstub.py
+    TimeWorld: DateTime.EPOCH is a value of the wall-clock world, Duration / AbsoluteDuration record their arguments) and on
+    native datetime.time / timedelta operands: add / subtract / + / - timedelta shift modulo 24 h exactly to the microsecond
+    and return a Time, subtract undoes add, a timedelta with a day component is refused with TypeError, diff / t2 - t1 /
+    native - Time give the signed difference of the times of day in microseconds (AbsoluteDuration for abs=True), aware
+    operands are refused, closest / farthest choose by the absolute difference."""
+    import datetime as _dt
+    from ..rules import minieval, wallstub
+    m = pmod("time")
+    DAY = 86400 * 10**6
+
+    def us(t):
+        return ((t.hour * 60 + t.minute) * 60 + t.second) * 10**6 + t.microsecond
+
+    def tod(n):
+        n %= DAY
+        return _dt.time(n // 3600_000_000, n // 60_000_000 % 60, n // 10**6 % 60, n % 10**6)
+    try:
+        w = wallstub.TimeWorld(m)
+    except wallstub.ERRORS as e:
+        ctx.unverified("TIME.tabulated", "Time", f"outside the checker's interpreter: {type(e).__name__}: {e}", m.rel)
+        return
+    times = [_dt.time(0, 0, 0), _dt.time(23, 59, 59, 999999), _dt.time(12, 34, 56, 789012), _dt.time(0, 0, 0, 1), _dt.time(1, 0, 0), _dt.time(13, 0, 0, 500000)]
+    amounts = [{}, {"hours": 1}, {"hours": -1}, {"hours": 25}, {"hours": -49}, {"minutes": 1}, {"minutes": 61}, {"minutes": -1441}, {"seconds": 1}, {"seconds": -1}, {"seconds": 3661},
+               {"seconds": 86399}, {"microseconds": 1}, {"microseconds": -1}, {"microseconds": 10**6 + 1}, {"microseconds": -(DAY + 1)},
+               {"hours": 1, "minutes": 2, "seconds": 3, "microseconds": 4}, {"hours": -1, "minutes": -2, "seconds": -3, "microseconds": -4}, {"minutes": 7, "seconds": 75}]
+    deltas = [_dt.timedelta(0), _dt.timedelta(hours=1), _dt.timedelta(seconds=86399, microseconds=999999), _dt.timedelta(microseconds=1), _dt.timedelta(minutes=90, microseconds=5)]
+
+    def amount_us(kw):
+        return ((kw.get("hours", 0) * 60 + kw.get("minutes", 0)) * 60 + kw.get("seconds", 0)) * 10**6 + kw.get("microseconds", 0)
+    groups: dict[str, list[str]] = {}
+    counts: dict[str, int] = {}
+
+    def check(group, label, fn, want):
+        """want: ('time', datetime.time) | ('dur', kind, us) | ('raise', name) | ('is', object)"""
+        counts[group] = counts.get(group, 0) + 1
+        bad = groups.setdefault(group, [])
+        try:
+            got = fn()
+        except minieval.Raised as e:
+            if want[0] != "raise" or e.exc_name != want[1]:
+                bad.append(f"{label}: raises {e.exc_name}")
+            return
+        if want[0] == "raise":
+            bad.append(f"{label}: returns {got!r}; must raise {want[1]}")
+        elif want[0] == "time":
+            g = vars(got).get("_tod") if isinstance(got, minieval.Obj) else None
+            if g != want[1]:
+                bad.append(f"{label}: {g if g is not None else got!r} (expected {want[1]})")
+        elif want[0] == "dur":
+            if not isinstance(got, minieval.Stub) or (getattr(got, "_kind", None), getattr(got, "_us", None)) != (want[1], want[2]):
+                bad.append(f"{label}: {getattr(got, '_kind', got)!r} of {getattr(got, '_us', '?')} us (expected {want[1]} of {want[2]} us)")
+        elif want[0] == "is":
+            if got is not want[1]:
+                bad.append(f"{label}: returns {got!r}")
+    try:
+        for t in times:
+            x = lambda: w.time(t.hour, t.minute, t.second, t.microsecond)      # noqa: E731
+            for kw in amounts:
+                a = amount_us(kw)
+                check("add", f"Time({t}).add({kw})", lambda: w.call(x(), "add", [], dict(kw)), ("time", tod(us(t) + a)))
+                check("subtract", f"Time({t}).subtract({kw})", lambda: w.call(x(), "subtract", [], dict(kw)), ("time", tod(us(t) - a)))
+                check("subtract", f"Time({t}).add({kw}).subtract({kw})", lambda: w.call(w.call(x(), "add", [], dict(kw)), "subtract", [], dict(kw)), ("time", t))
+            for d in deltas:
+                du = d // _dt.timedelta(microseconds=1)
+                check("__add__", f"Time({t}) + {d!r}", lambda: w.call(x(), "__add__", [d]), ("time", tod(us(t) + du)))
+                check("__sub__", f"Time({t}) - {d!r}", lambda: w.call(x(), "__sub__", [d]), ("time", tod(us(t) - du)))
+            for d in (_dt.timedelta(days=1), _dt.timedelta(days=-1, hours=1), _dt.timedelta(days=2, microseconds=1)):
+                check("__add__", f"Time({t}) + {d!r}", lambda: w.call(x(), "__add__", [d]), ("raise", "TypeError"))
+                check("__sub__", f"Time({t}) - {d!r}", lambda: w.call(x(), "__sub__", [d]), ("raise", "TypeError"))
+            check("__add__", f"Time({t}) + 5", lambda: w.call(x(), "__add__", [5]), ("is", NotImplemented))
+            check("__sub__", f"Time({t}) - 5", lambda: w.call(x(), "__sub__", [5]), ("is", NotImplemented))
+            for o in times:
+                for ov, kind in ((w.time(o.hour, o.minute, o.second, o.microsecond), "Time"), (o, "time")):
+                    check("diff", f"Time({t}).diff({kind}({o}), abs=False)", lambda: w.call(x(), "diff", [ov, False]), ("dur", "Duration", us(o) - us(t)))
+                    check("diff", f"Time({t}).diff({kind}({o}))", lambda: w.call(x(), "diff", [ov]), ("dur", "AbsoluteDuration", us(o) - us(t)))
+                    check("__sub__", f"Time({t}) - {kind}({o})", lambda: w.call(x(), "__sub__", [ov]), ("dur", "Duration", us(t) - us(o)))
+                    if "__rsub__" in w.meths:
+                        check("__rsub__", f"{kind}({o}) - Time({t})", lambda: w.call(x(), "__rsub__", [ov]), ("dur", "Duration", us(o) - us(t)))
+            aware = _dt.time(1, 2, 3, tzinfo=_dt.timezone.utc)
+            check("__sub__", f"Time({t}) - aware time", lambda: w.call(x(), "__sub__", [aware]), ("raise", "TypeError"))
+            if "__rsub__" in w.meths:
+                check("__rsub__", f"aware time - Time({t})", lambda: w.call(x(), "__rsub__", [aware]), ("raise", "TypeError"))
+            for o1 in times:
+                for o2 in times:
+                    d1, d2 = abs(us(o1) - us(t)), abs(us(o2) - us(t))
+                    if d1 == d2:
+                        continue
+                    a1, a2 = (w.time(o1.hour, o1.minute, o1.second, o1.microsecond), o2)
+                    check("closest", f"Time({t}).closest({o1}, {o2})", lambda: w.call(x(), "closest", [a1, a2]), ("time", o1 if d1 < d2 else o2))
+                    check("farthest", f"Time({t}).farthest({o1}, {o2})", lambda: w.call(x(), "farthest", [a1, a2]), ("time", o1 if d1 > d2 else o2))
+    except wallstub.ERRORS + (ValueError,) as e:
+        ctx.unverified("TIME.tabulated", "Time", f"outside the checker's interpreter: {type(e).__name__}: {e}", m.rel)
+        return
+    ok_all = True
+    for g, bad in groups.items():
+        if g not in w.meths:
+            continue
+        ctx.ob("TIME.tabulated", f"Time.{g}", not bad, f"{counts[g]} cases: " + (f"wrong: {bad[:3]}" if bad else "exact to the microsecond on every case"), m.loc(w.meths[g]))
+        ok_all = ok_all and not bad
+    if ok_all:
+        ctx.established(("UNITS.components", "DIFF", "CARRIER", "TIMEDELTA", "DIRECTION", "ORDER"), "Time.", "TIME.tabulated")
+
+
 def run(ctx) -> None:
     ctx.explanation = EXPLANATION
+    ctx.step(_time_tabulate, ctx)
     ctx.step(_diff, ctx)
     ctx.step(_carrier, ctx)
     ctx.step(_operators, ctx)
